@@ -509,3 +509,35 @@ Example c03_nonvacuous_crashing_thread :
   | _ => False
   end /\ max_region_bytes nv_input = 32%nat.
 Proof. split; vm_compute; reflexivity. Qed.
+
+(* ---- BitFlipDetails::confidence (reached for every bit-flip candidate of check_for_bitflips): for ANY candidate address and
+   ANY register file, in both profiles, counting the nearby registers cannot overflow, `min(count, len) - 1` cannot underflow
+   and NEARBY_REGISTER[..] is indexed inside the table — i = min(count, 4) - 1 when count > 0, no access when count = 0 *)
+Theorem c03_nearby_register_index_total : forall p address regs, Z.of_nat (length regs) < two32 ->
+  exists n i, nearby_site p address regs = Ret (n, i) /\ 0 <= n <= Z.of_nat (length regs) /\
+              (n = 0 -> i = None) /\ (0 < n -> i = Some (Z.min n NEARBY_REGISTER_LEN - 1)).
+Proof. exact nearby_site_total. Qed.
+Print Assumptions c03_nearby_register_index_total.
+
+(* the same for the index expression as translate/c03_sites.py reads it out of process_state.rs on every run, with the
+   source's table length: it is what the model computes, and it stays inside the table for every non-zero u32 count *)
+Theorem c03_nearby_register_index_source :
+  (forall p n, 0 < n ->
+     nearby_index p n =
+     (do i <- Gen.C03Sites.gen_nearby_index p n Gen.C03Sites.gen_nearby_table_len;
+      if (0 <=? i) && (i <? Gen.C03Sites.gen_nearby_table_len) then Ret (Some i) else Panic PANIC_INDEX)) /\
+  (forall p n, 0 < n < two32 ->
+     exists i, Gen.C03Sites.gen_nearby_index p n Gen.C03Sites.gen_nearby_table_len = Ret i /\
+               0 <= i < Gen.C03Sites.gen_nearby_table_len).
+Proof. exact (conj C03.SitesTie.nearby_index_from_source C03.SitesTie.nearby_source_in_bounds). Qed.
+Print Assumptions c03_nearby_register_index_source.
+
+(* seeded/C03-7 (subtract first, clamp to the table LENGTH): one past the end for every count >= 5, both profiles *)
+Theorem c03_nearby_clamp_len_refuted : forall p n, 5 <= n < two32 -> nearby_index_clamp_len p n = Panic PANIC_INDEX.
+Proof. exact nearby_clamp_len_panics. Qed.
+Print Assumptions c03_nearby_clamp_len_refuted.
+
+Example c03_nonvacuous_nearby :
+  nearby_site Debug 524288 [524288; 524289; 520192; 528384; 528385; 524000; 0; 524290] = Ret (6, Some 3) /\
+  nearby_site Release 4096 [4096; 4097] = Ret (0, None).
+Proof. split; vm_compute; reflexivity. Qed.
